@@ -3,6 +3,7 @@ package symgo
 import (
 	"go/token"
 	"go/types"
+	"strconv"
 )
 
 func byteEq(a, b value) bool {
@@ -162,4 +163,130 @@ func init() {
 		return -1
 	}
 	externals["strings.LastIndexByte"] = externals["internal/bytealg.LastIndexByteString"]
+}
+
+// symFormatUint renders a symbolic non-negative integer u (already converted to uint64) in base
+// 10 or 16 as a string of symbolic digit characters; the number of digits is decided by forking.
+func symFormatUint(u value, base int) []value {
+	u64 := types.Typ[types.Uint64]
+	cst := func(n uint64) value { return n }
+	// number of digits
+	nd := 1
+	lim := uint64(base)
+	for {
+		if decideBool(nil, binop(token.LSS, u64, u, cst(lim))) {
+			break
+		}
+		nd++
+		next := lim * uint64(base)
+		if next/uint64(base) != lim { // overflow: all remaining values have nd digits
+			break
+		}
+		lim = next
+	}
+	out := make([]value, nd)
+	pow := uint64(1)
+	for i := nd - 1; i >= 0; i-- {
+		var d value
+		if base == 16 {
+			d = binop(token.AND, u64, binop(token.SHR, u64, u, cst(uint64(4*(nd-1-i)))), cst(15))
+		} else {
+			d = binop(token.REM, u64, binop(token.QUO, u64, u, cst(pow)), cst(10))
+			pow *= 10
+		}
+		var ch value
+		if base == 16 {
+			isDec := binop(token.LSS, u64, d, cst(10))
+			lo := binop(token.ADD, u64, d, cst('0'))
+			hi := binop(token.ADD, u64, d, cst('a'-10))
+			if b, ok := isDec.(bool); ok {
+				if b {
+					ch = lo
+				} else {
+					ch = hi
+				}
+			} else {
+				ch = iteVal(isDec.(*sym).T, lo, hi)
+			}
+		} else {
+			ch = binop(token.ADD, u64, d, cst('0'))
+		}
+		out[i] = conv(types.Typ[types.Uint8], u64, ch)
+	}
+	return out
+}
+
+func symFormatInt(v value, t types.Type, base int) []value {
+	i64 := types.Typ[types.Int64]
+	x := conv(i64, t, v)
+	if decideBool(nil, binop(token.LSS, i64, x, int64(0))) {
+		neg := unop2(token.SUB, x)
+		return append([]value{byte('-')}, symFormatUint(conv(types.Typ[types.Uint64], i64, neg), base)...)
+	}
+	return symFormatUint(conv(types.Typ[types.Uint64], i64, x), base)
+}
+
+func unop2(op token.Token, x value) value {
+	if s, ok := x.(*sym); ok {
+		return symUnop(op, s)
+	}
+	return -x.(int64)
+}
+
+func init() {
+	wrap := func(name string, isAppend bool, unsigned bool, fallback func(fr *frame, a []value) value) {
+		externals[name] = func(fr *frame, a []value) value {
+			vi := 0
+			if isAppend {
+				vi = 1
+			}
+			baseV := 10
+			if len(a) > vi+1 {
+				bv, ok := a[vi+1].(int)
+				if !ok {
+					panic(unsupported(name + " with symbolic base"))
+				}
+				baseV = bv
+			}
+			if _, ok := a[vi].(*sym); !ok || (baseV != 10 && baseV != 16) {
+				return fallback(fr, a)
+			}
+			var digs []value
+			if unsigned {
+				digs = symFormatUint(a[vi], baseV)
+			} else {
+				digs = symFormatInt(a[vi], types.Typ[types.Int64], baseV)
+			}
+			if isAppend {
+				return append(append([]value{}, a[0].([]value)...), digs...)
+			}
+			return mkStr(digs)
+		}
+	}
+	toBytes := func(s string) []value {
+		r := make([]value, len(s))
+		for i := range r {
+			r[i] = s[i]
+		}
+		return r
+	}
+	wrap("strconv.AppendInt", true, false, func(fr *frame, a []value) value {
+		return append(append([]value{}, a[0].([]value)...), toBytes(strconv.FormatInt(a[1].(int64), a[2].(int)))...)
+	})
+	wrap("strconv.AppendUint", true, true, func(fr *frame, a []value) value {
+		return append(append([]value{}, a[0].([]value)...), toBytes(strconv.FormatUint(a[1].(uint64), a[2].(int)))...)
+	})
+	wrap("strconv.FormatInt", false, false, func(fr *frame, a []value) value {
+		return strconv.FormatInt(a[0].(int64), a[1].(int))
+	})
+	wrap("strconv.FormatUint", false, true, func(fr *frame, a []value) value {
+		return strconv.FormatUint(a[0].(uint64), a[1].(int))
+	})
+	prevItoa := externals["strconv.Itoa"]
+	externals["strconv.Itoa"] = func(fr *frame, a []value) value {
+		if _, ok := a[0].(*sym); ok {
+			return mkStr(symFormatInt(a[0], types.Typ[types.Int], 10))
+		}
+		return prevItoa(fr, a)
+	}
 }
